@@ -207,6 +207,17 @@ Proof.
   split; [exact H|]. now rewrite gaussian_even.
 Qed.
 
+Lemma gaussian_half_in_range fwhm L : 0 < fwhm -> 0 < L -> fwhm <= L ->
+  -1 <= fwhm / L <= 1 /\ integration_constant (ApGaussian fwhm) (fwhm / L) L = / 2 /\
+  integration_constant (ApGaussian fwhm) (- (fwhm / L)) L = / 2.
+Proof.
+  intros Hf HL Hle. split; [|now apply gaussian_half].
+  assert (Hi : 0 < / L) by now apply Rinv_0_lt_compat.
+  split.
+  - unfold Rdiv. assert (0 <= fwhm * / L) by (apply Rmult_le_pos; lra). lra.
+  - apply Rmult_le_reg_r with L; [lra|]. unfold Rdiv. rewrite Rmult_assoc, Rinv_l; lra.
+Qed.
+
 (* definedness of the Gaussian arm: the divisor 2 sigma / L is not zero *)
 Lemma gaussian_defined fwhm L : 0 < fwhm -> 0 < L -> 2 * (fwhm / (2 * sqrt (2 * ln 2))) / L <> 0 /\ 0 <= 2 * ln 2.
 Proof.
